@@ -5,7 +5,7 @@ ALLCFG = [1, 2, 3, 4, 5, 6, 7]
 PLANS = {
     'C01': dict(
         oracle='C01', level='exploration',
-        profiles=[('core', 2), ('hier', 2), ('hier_sparse', 2)], curated=[], configs=ALLCFG,
+        profiles=[('core', 2), ('core_smi', 1), ('hier', 2), ('hier_sparse', 2)], curated=[], configs=ALLCFG,
         cp=dict(max_ops=25, kinds=['P']), examples=(300, 3000), floor=(200, 2000),
         rule='Hypothesis-generated event histories with per-step guard valuations on generated machines (core/hier profiles: '
              '1-3 regions, depth<=3, conflicting rows, state- and machine-internal tables); oracle: per (machine,region) ordered '
@@ -185,7 +185,7 @@ PLANS = {
     ),
     'C13': dict(
         oracle='C13', level='exploration', multi=True,
-        profiles=[('common', 6), ('common_smi', 2)], curated=[], configs=ALLCFG,
+        profiles=[('common', 5), ('common_smi', 2), ('core_smi', 1)], curated=[], configs=ALLCFG,
         cp=dict(max_ops=25, kinds=['P', 'P', 'P', 'P', 'P', 'Q', 'X', 'T'], xmodes=['a'], scripts={'p': ['r', 'Q'], 't': True}, final_stop=True),
         examples=(250, 2000), floor=(300, 3000),
         rule='Differential: generated machines in the common feature subset (hierarchy, 1-3 regions, conflicts, state-internal '
